@@ -378,6 +378,57 @@ def replay_edges(ctx, edges, keypool, kind="header", limit=None, rng=None):
     return traces, meta
 
 
+def replay_putbacks(ctx, edges, keypool, kind="header", limit=None, rng=None):
+    """Replay the put-back transitions of SectionReuse on real sections.  The pre-state (items with the session names the model
+    says they carry, stale ones included) is built directly - every such state is reachable by a plain history, which the
+    SectionAlgo replay covers - and the detached item is a real item carrying the stale session name it left with."""
+    cls = CurveItem if kind == "curve" else HeaderItem
+    order = list(range(len(edges)))
+    if limit is not None and len(order) > limit:
+        rng.shuffle(order)
+        order = sorted(order[:limit])
+    traces, meta = [], []
+
+    def make(rec):
+        it = cls(rec["o"], value=0, data=[1.0, 2.0]) if kind == "curve" else cls(rec["o"], value=0)
+        it.set_session_mnemonic_only(rec["s"])
+        if rec["v"] == 1:
+            it.value = 1
+        return it
+
+    for ix in order:
+        ed = edges[ix]
+        sec = SectionItems()
+        sec.mnemonic_transforms = bool(ed["xf"])
+        for rec in ed["pre"]:
+            list.append(sec, make(rec))
+        real = Real(ed["xf"], kind, section=sec)
+        tr = [{"op": "init", "exc": "", "xf": real.xf, "post": real.project()}]
+        spare = make(ed["spare"])
+        e = ed["e"]
+        ev = {"op": e["op"], "exc": "", "n": spare.original_mnemonic, "nid": real.ident(spare), "re": True}
+        try:
+            if e["op"] == "append":
+                sec.append(spare)
+            else:
+                ev["i"] = e["i"]
+                sec.insert(e["i"], spare)
+        except Exception as x:
+            ev["exc"] = type(x).__name__
+        ev["post"] = real.project()
+        tr.append(ev)
+        tr.append(real.probe(probe_keys(real, keypool)))
+        traces.append(tr)
+        meta.append({"putback": ed["spare"], "pre": ed["pre"], "e": e, "xf": ed["xf"], "kind": kind})
+        ctx.evaluations += 1
+        ctx.case(["putback", ed["xf"], [[r["o"], r["s"]] for r in ed["pre"]], [ed["spare"]["o"], ed["spare"]["s"]], e.get("i", "append"), kind])
+        want = [(r["o"], r["s"]) for r in ed["post"]]
+        got = [(r["o"], r["s"]) for r in ev["post"]]
+        if want != got:
+            ctx.drift.append({"putback": ed["spare"], "pre": ed["pre"], "e": e, "model": want, "real": got})
+    return traces, meta
+
+
 def random_histories(ctx, rng, n, maxops, names, kind="header", read_case=None):
     """code -> spec: random operation histories on real sections, larger alphabets / longer runs."""
     traces, meta = [], []
